@@ -4,6 +4,7 @@ import (
 	"fmt"
 	"unicode/utf8"
 
+	"verif/spaces"
 	"verif/tree"
 
 	cm "zombiezen.com/go/commonmark"
@@ -470,7 +471,7 @@ func init() {
 			"hard break by backslash: the span may or may not include the line ending (the statement allows both readings)",
 		},
 		Run: func(c *Ctx) {
-			c.forPlan(treePlan, func(x *X, in []byte) {
+			drv := func(x *X, in []byte) {
 				blocks, _ := cm.Parse(clone(in))
 				x.Validated()
 				nt := false
@@ -484,7 +485,12 @@ func init() {
 				}
 				x.Outcome(tree.Hash64(tree.Dump(blocks, nil, tree.Spans)))
 				x.Sample(q(in))
-			})
+			}
+			c.forPlan(treePlan, drv)
+			// Emphasis spans come from shrinking delimiter nodes over several
+			// matches; the interesting cases (a closer run used twice) need more
+			// symbols than the general alphabets reach.
+			c.Inputs(spaces.Emph4, c.Pick(11, 13), drv)
 		},
 	})
 }
